@@ -114,7 +114,8 @@ func genCase(t *rapid.T) Case {
 		st := Step{Kind: k}
 		switch k {
 		case "against", "validator":
-			st.A, st.B = rapid.IntRange(0, ns-1).Draw(t, "sidx"), rapid.IntRange(0, len(c.Data)-1).Draw(t, "didx")
+			// schema index -1: a nil *spec.Schema (AgainstSchema then answers from the shared empty result)
+			st.A, st.B = rapid.IntRange(-1, ns-1).Draw(t, "sidx"), rapid.IntRange(0, len(c.Data)-1).Draw(t, "didx")
 		case "param":
 			st.B = rapid.IntRange(0, 2).Draw(t, "pvidx")
 		case "header":
@@ -164,7 +165,11 @@ func run(c Case, st Step, recycle bool) (r result, ok bool) {
 			return r, false
 		}
 		data, okd := decodeData(c.Data[st.B])
-		sch, err := obs.ParseSchema(c.Schemas[st.A])
+		var sch *spec.Schema
+		var err error
+		if st.A >= 0 {
+			sch, err = obs.ParseSchema(c.Schemas[st.A])
+		}
 		if !okd || err != nil {
 			return r, false
 		}
